@@ -30,7 +30,8 @@ EXPLANATION = (
     "each input must be covered by the result, no path raises, and the result is the same multiset-wise for every "
     "permutation; shrink_typed_dict_types for every combination of <=3 TypedDicts over <=2 keys (absent/required/optional) "
     "x limit 0..3 in every order: every value type of every key reaches the merged field or the Dict fallback. "
-    "Not decided: membership of concrete values in the resulting types; termination on cyclic containers."
+    "Added: the four inference functions are also interpreted TOGETHER on a grammar of ~90 small concrete values (atoms, class objects, list/tuple/set/dict/defaultdict of depth <= 2, lists of dicts, empty containers, non-string keys) x limits and on ~700 merged pairs, and the result is judged by an oracle written from the property; two-call histories sharing module state (a memo with an unsound key is reported); compat.types_equal decided by interpretation. "
+    "Not decided: membership for values outside the bounded grammar; termination on cyclic containers."
 )
 
 KIND = {"builtin:list": "List", "builtin:set": "Set", "builtin:tuple": "Tuple", "mod:collections.defaultdict": "DefaultDict"}
